@@ -5,6 +5,7 @@ mod chain;
 mod finalize;
 mod flatten;
 mod group;
+mod indep;
 mod probe;
 mod retire;
 mod sexp;
@@ -35,6 +36,7 @@ fn run_case(case: &Sexp) -> String {
     "atform" => timed::run_atform(body),
     "subalg" => subalg::run_subalg(body),
     "retire" => retire::run_retire(body),
+    "indep" => indep::run_indep(body),
     "tree" => tree::run_tree(body),
     "finalize" => finalize::run_finalize(body),
     "finalize_race" => finalize::run_finalize_race(body),
